@@ -47,6 +47,34 @@ class Manifest:
         return self.prefix + L.model_bytes(model, self.nsym) + self.suffix
 
 
+class Bindings:
+    """structured family: a rule block and a build block whose bindings refer to each other (and to themselves) in
+    every combination; totality of evaluation (no unbounded recursion, no panic)"""
+    NAMES = [b'command', b'description', b'rspfile']
+    REFS = [b'lit', b'$command', b'${description}', b'$rspfile', b'$w $out', b'$rspfile$rspfile']
+
+    def __init__(self, I):
+        self.entry = I.fn('verif_load', 'load.rs')
+        L.install_loader_env(I, self)
+
+    def text(self, pick):
+        t = b'w = top $rspfile\nrule r\n'
+        for i, nm in enumerate(self.NAMES[:3]):
+            t += b'  ' + nm + b' = ' + self.REFS[pick[i]] + b'\n'
+        t += b'build o: r i\n  ' + (b'w', b'rspfile', b'description')[pick[4]] + b' = ' + self.REFS[pick[3]] + b'\n'
+        return t
+
+    def run_path(self, I):
+        pick = [I.choose('ref%d' % i, len(self.REFS)) for i in range(4)] + [I.choose('bname', 3)]
+        self.pick = pick
+        t = self.text(pick)
+        r = I.call_fn(self.entry, [L.buf_ref([IntV(8, c) for c in t] + [IntV(8, 0)])])
+        return 'ok' if r.variant == 'Ok' else 'err'
+
+    def concrete(self, model):
+        return self.text([model.get('ref%d' % i, 0) for i in range(4)] + [model.get('bname', 0)])
+
+
 class Excerpt:
     """format_parse_error on a buffer of concrete content with a SYMBOLIC error offset (long-line arithmetic)"""
 
@@ -151,6 +179,18 @@ def run(ctx, out):
                 out.add(Violation('M:load:' + key, '%s; manifest %r -> %s' % (desc, text, detail),
                                   replay={'cmd': 'load', 'bytes_hex': text.hex(), 'native': detail}, reproduced=bad))
         samples += [{'family': fname, 'outcomes': outcomes}]
+    # bindings that refer to each other
+    H = Bindings(I)
+    ex = M.explore(I, H, jobs=ctx.jobs, time_budget=budget, keep_all=True)
+    fname = 'loader: rule and build bindings referring to each other (%d references ^ 4 x 3 binding names)' % len(Bindings.REFS)
+    merge_cov(cov, fname, ex)
+    finish_exploration(out, ex, fname)
+    for key, lst in ex.failures.items():
+        for desc, model, extra in lst[:2]:
+            text = H.concrete(model or {})
+            bad, detail = native_manifest(rep, text)
+            out.add(Violation('M:bindings:' + key, '%s; manifest %r -> %s' % (desc, text, detail),
+                              replay={'cmd': 'load', 'bytes_hex': text.hex(), 'native': detail}, reproduced=bad))
     # error excerpt arithmetic
     texts = []
     for ln in ((30, 39, 40, 41, 45, 59, 60, 61, 62, 81, 100) if quick else range(0, 121)):
